@@ -109,10 +109,22 @@ pub fn generate_helpers(
     let mut definitions = Vec::new();
 
     let mut objects = Vec::from_iter(required_helpers);
+    #[cfg(rssl_verif)]
+    rssl_text::verif::probe(
+        "msl::intrinsic_helpers::objects",
+        objects.len(),
+        rssl_text::verif::order_sig(objects.iter().map(|e| &e.0)),
+    );
     objects.sort_by(|(key_lhs, _), (key_rhs, _)| std::cmp::Ord::cmp(key_lhs, key_rhs));
 
     for (object, helpers) in objects {
         let mut ordered = Vec::from_iter(helpers);
+        #[cfg(rssl_verif)]
+        rssl_text::verif::probe(
+            "msl::intrinsic_helpers::helpers_of_object",
+            ordered.len(),
+            rssl_text::verif::order_sig(ordered.iter()),
+        );
         ordered.sort();
 
         let mut functions = Vec::new();
